@@ -59,6 +59,25 @@ func genC19(r *mon.Rand) *reasm.History {
 		}
 	}
 	h.Ops = append(h.Ops, reasm.Op{Kind: reasm.OpClose})
+	if r.Chance(1, 4) {
+		// the stream goes on after Close: pushes still buffer and evict (also by time), Maintain and Close are
+		// refused and must neither deliver nor make anything disappear
+		for i, m := 0, r.Range(3, 9); i < m; i++ {
+			switch x := r.Intn(10); {
+			case x < 4:
+				h.Ops = append(h.Ops, reasm.Op{Kind: reasm.OpPushMsg, Seq: h.Base + 10 + uint32(r.Intn(5)), Type: mon.Pick(r, []uint16{1300, 1302, 1307, 1327, reasm.TypeEOE})})
+			case x < 7:
+				if d := mon.Pick(r, sleeps); d > 0 {
+					h.Ops = append(h.Ops, reasm.Op{Kind: reasm.OpSleep, Sleep: int64(d / time.Microsecond)})
+				}
+			case x < 9:
+				h.Ops = append(h.Ops, reasm.Op{Kind: reasm.OpMaintain})
+			default:
+				h.Ops = append(h.Ops, reasm.Op{Kind: reasm.OpClose})
+			}
+		}
+		return h
+	}
 	for i, m := 0, r.Intn(4); i < m; i++ {
 		if r.Bool() {
 			h.Ops = append(h.Ops, reasm.Op{Kind: reasm.OpMaintain})
